@@ -465,7 +465,12 @@ func c05PastUpdateTTL(b *Batch, idx int, rng *rand.Rand) {
 	defer r.release()
 	prepop := r.prepopulate(rng, 0, "stale")
 	r.script = func(int, int) buildOutcome { return buildOutcome{OK: true, Same: same} }
-	r.doGet(0, getSpec{Key: 0})
+	first := getSpec{Key: 0}
+	if rng.Intn(2) == 0 {
+		hour := time.Hour // the caller asks for an hour: the temporary refresh with UpdateTTL must not shorten that
+		first.CallerTTL = &hour
+	}
+	r.doGet(0, first)
 	for dl := time.Now().Add(3 * time.Second); len(r.fo.LockedKeys()) > 0 && time.Now().Before(dl); {
 		time.Sleep(50 * time.Microsecond)
 	}
